@@ -556,6 +556,7 @@ def check_translate(fx, R, gq, dim):
         R.undecided('O2', cname, 'anchor vanished: translate')
         return
     R.used(f)
+    whole_grid_facts(fx, R, gq, cname, f)
     C = Ctx(fx, f)
     body = live(f['body'])
     blocks = {}
@@ -737,6 +738,95 @@ def flag_fast_path(fx, R, gq, cname, fl):
         return True
     R.holds('O1', inst, 'the plain path is taken only in states whose offset is zero: every writer of `%s` evaluated on %d witness (size, offset, translation) triples' % (flag, n_ok), fx.rel(fl['loc']), 'E-STEP')
     return True
+
+
+def whole_grid_facts(fx, R, gq, cname, f):
+    """Two facts about translate() and the helpers of the class, whatever the shape of the axis phases.
+    O6 byte fill: memset(p, v, n) stores the low byte of v in every byte.  With v = the empty value it gives the empty value back only when all its bytes are equal (0, -1); the property has every empty value.
+    O3 whole-grid clear: a call setValue(emptyValue) inside translate() wipes every cell.  The conditions it sits under (bool locals resolved) are evaluated (E-STEP, generic axis) on witness translations
+    with 0 < |d| < n, where n - |d| columns stay in the window: the clear must not run."""
+    from .. import mini
+    from ..tree import prune
+    from .C20 import deep_unwrap as _du
+    fns_ = [g for g in fx.functions.values() if g.get('cls') == gq and g.get('body') is not None]
+    for g in sorted(fns_, key=lambda g: g['q']):
+        for y in walk(prune(g['body'])):
+            if isinstance(y, dict) and y.get('k') == 'Call' and (y.get('fn') or '').split('::')[-1] in ('memset', 'wmemset') and len(y.get('args', [])) == 3:
+                cv = const_value(y['args'][1])
+                inst = '%s::%s:byte-fill' % (cname.split('<')[0], g['name'])
+                if cv is None or cv != 0:
+                    R.violated('O6', inst, '%s() fills cells with `%s`: memset stores the LOW BYTE of its value argument in every byte of the range, not the value in every cell.  For an empty value whose bytes are '
+                               'all equal (0, -1) the cells read back as the empty value; for any other (7 -> 0x07070707 = 117901063, 256 -> 0) the cells that enter the window read another number - the property '
+                               'has every empty value [%s]' % (g['name'], pp(y)[:120], cname), fx.rel(y.get('loc') or g['loc']), 'E-STATE')
+                else:
+                    R.undecided('O6', inst, 'cells are zero-filled byte-wise (`%s`); whether all-zero bytes are the empty value of the cell type is not decided' % pp(y)[:100])
+    pn = [p_['name'] for p_ in f['params']]
+    if len(pn) < 2:
+        return
+    body = prune(f['body'])
+    sites = []
+
+    def visit(node, guards, decls):
+        if not isinstance(node, dict):
+            return
+        k = node.get('k')
+        if k == 'Compound':
+            local = list(decls)
+            for x in node['s']:
+                visit(x, guards, local)
+                if x.get('k') == 'Decl':
+                    local.append(x)
+            return
+        if k == 'If':
+            visit(node.get('t'), guards + [(node['c'], True)], decls)
+            visit(node.get('e'), guards + [(node['c'], False)], decls)
+            return
+        if k in ('For', 'While', 'Do', 'RangeFor'):
+            gs = guards + ([(node['c'], True)] if k in ('For', 'While') and node.get('c') is not None else [])
+            visit(node.get('b'), gs, decls + ([node['init']] if k == 'For' and node.get('init') is not None and node['init'].get('k') == 'Decl' else []))
+            return
+        for y in walk(node):
+            if isinstance(y, dict) and y.get('k') == 'MCall' and y.get('m') == 'setValue' and strip_casts(y.get('obj') or {}).get('k') == 'This' and len(y.get('args', [])) == 1 \
+                    and strip_casts(y['args'][0]).get('name') == pn[1]:
+                sites.append((y, list(guards), list(decls)))
+    visit(body, [], [])
+    for (call, guards, decls) in sites:
+        inst = '%s::translate:whole-grid-clear' % cname
+        bad = why = None
+        n_eval = 0
+        for (n_, d_) in ((3, 2), (3, -2), (4, 3), (4, -1), (2, 1), (3, 1), (5, -4)):
+            S_ = mini.Step(_du)
+            S_.hooks['.cast'] = lambda t, env, S_=S_: S_.ev(t[1], env)
+            for nm_ in ('abs', 'std::abs', 'labs', 'std::labs'):
+                S_.hooks[nm_] = lambda t, env, S_=S_: abs(S_.ev(t[1], env))
+            env = {pn[0]: d_, pn[1]: -777, 'this.numberOfCellsAlongAxes_': n_, 'this.indexOffsetsAlongAxes_': 1 % n_, 'this.numberOfCellsAlongAxesMinusOne_': n_ - 1}
+            try:
+                for dn in decls:
+                    try:
+                        S_.run(dn, env)
+                    except (mini.Unsupported, TypeError, KeyError):
+                        pass
+                taken = True
+                for (c_, pol) in guards:
+                    v_ = S_.ev(_du(sx(c_)), dict(env))
+                    if bool(v_) != pol:
+                        taken = False
+                        break
+            except (mini.Unsupported, TypeError, KeyError) as u:
+                why = str(u)[:120]
+                break
+            n_eval += 1
+            if taken:
+                bad = bad or (n_, d_)
+        gtxt = ' && '.join(('' if pol else '!') + pp(c_)[:60] for (c_, pol) in guards) or 'always'
+        if why:
+            R.undecided('O3', inst, 'translate() clears the whole grid under `%s`; not evaluable: %s' % (gtxt, why))
+        elif bad:
+            R.violated('O3', '%s::translate:whole-grid-clear' % cname.split('<')[0], 'translate() clears the WHOLE grid (setValue(%s)) under `%s`.  Evaluated on a grid of %d cells per axis and a translation of %d '
+                       'cells the clear runs, although %d column(s) of cells stay inside the window: their map location has not left it, so they must keep the value last written - only a translation of at least the '
+                       'grid size empties the window [%s]' % (pn[1], gtxt[:200], bad[0], bad[1], bad[0] - abs(bad[1]), cname), fx.rel(call.get('loc') or f['loc']), 'E-STEP')
+        else:
+            R.holds('O3', inst, 'the whole-grid clear under `%s` does not run on %d witness translations shorter than the axis' % (gtxt[:100], n_eval), fx.rel(call.get('loc') or f['loc']), 'E-STEP')
 
 
 def shortcut_branch(fx, R, cname, f, node):
